@@ -244,7 +244,8 @@ def _initialize_tableau(M, q, d, tableau, basis):
 
     for i in range(n):
         for j in range(n):
-            tableau[i, n+j] = -M[i, j]
+            # 0. - ...: negating an unsigned integer would wrap around
+            tableau[i, n+j] = 0. - M[i, j]
 
     for i in range(n):
         tableau[i, 2*n] = -d[i]
